@@ -443,3 +443,220 @@ Proof.
       try (repeat split; intros; try congruence; tauto);
       try (destruct H as (_ & H2 & H3 & H4); destruct H2, H3, H4; congruence).
 Qed.
+
+(* ------------------------------------------------------------------ *)
+(* add: what is committed is what is returned                          *)
+(* ------------------------------------------------------------------ *)
+(* the usual sequence create / values / commit (what hwloc_distances_add does) *)
+Definition add_full_gen (fixn : bool) (t : topo) name kind cflags nb objs values vflags commitflags : topo * res unit :=
+  match add_create t name kind cflags with
+  | (t1, Ok h) =>
+    match add_values_gen fixn h nb objs values vflags with
+    | Ok h2 => add_commit t1 h2 commitflags
+    | Err e => (t1, Err e)
+    end
+  | (t1, Err e) => (t1, Err e)
+  end.
+Definition add_full := add_full_gen FIX_NULL_FIRST.
+
+Definition kind_okb (kind : N) : bool :=
+  (N.land kind (N.lxor (N.ones 64) HWLOC_DISTANCES_KIND_ALL) =? 0)%N
+  && negb (1 <? weight (N.land kind HWLOC_DISTANCES_KIND_FROM_ALL))%nat
+  && negb (1 <? weight (N.land kind HWLOC_DISTANCES_KIND_VALUE_ALL))%nat.
+Definition cflags_okb (f : N) : bool := (N.land f (N.lxor (N.ones 64) HWLOC_DISTANCES_ADD_FLAG_ALL) =? 0)%N.
+
+Definition all_same_type (objs : list obj) : bool :=
+  match objs with
+  | [] => true
+  | o0 :: rest => forallb (fun o => (o_type o =? o_type o0)%N) rest
+  end.
+
+(* the structure that a valid add must append *)
+Definition committed (t : topo) name kind (objs : list obj) (values : list N) : idist :=
+  let same := all_same_type objs in
+  let ut := if same then type_of_ref (hd None (map Some objs)) else TYPE_NONE in
+  IDist name (t_next_id t)
+        (if same then kind else N.lor kind HWLOC_DISTANCES_KIND_HETEROGENEOUS_TYPES)
+        ut (if same then None else Some (map o_type objs)) (length objs)
+        (if use_os_index ut then map o_os objs else map o_gp objs)
+        (map Some objs) values true.
+
+Lemma countb_all_some (objs : list obj) : countb (map is_some (map Some objs)) = length objs.
+Proof. induction objs; simpl; auto. Qed.
+
+Lemma forallb_is_some (objs : list obj) : forallb is_some (map Some objs) = true.
+Proof. induction objs; simpl; auto. Qed.
+
+Lemma forallb_map_some (f : obj -> bool) rest :
+  forallb (fun r : option obj => match r with Some o => f o | None => false end) (map Some rest) = forallb f rest.
+Proof. induction rest as [|x r IH]; simpl; auto. rewrite IH; auto. Qed.
+
+Lemma firstn_map_some (objs : list obj) : firstn (length objs) (map (@Some obj) objs) = map Some objs.
+Proof. rewrite <- (map_length (@Some obj) objs). apply firstn_all. Qed.
+
+Lemma add_full_valid fixn t name kind commitflags (objs : list obj) values :
+  kind_okb kind = true -> cflags_okb commitflags = true ->
+  (2 <= length objs)%nat ->
+  Forall (fun o => o_type o <> TYPE_NONE) objs ->
+  add_full_gen fixn t name kind 0 (length objs) (map Some objs) values 0 commitflags =
+  (Topo (t_objs t) (t_levels t) (t_dists t ++ [committed t name kind objs values]) (t_next_id t + 1), Ok tt).
+Proof.
+  intros Hk Hc Hn Hty. unfold add_full_gen, add_create.
+  unfold kind_okb in Hk. apply andb_true_iff in Hk as [Hk Hk3]. apply andb_true_iff in Hk as [Hk1 Hk2].
+  rewrite Hk1. apply negb_true_iff in Hk2, Hk3. rewrite Hk2, Hk3. simpl.
+  unfold backend_add_create. simpl.
+  unfold add_values_gen.
+  assert (Hsc : forallb is_some (if fixn then firstn (length objs) (map Some objs)
+                                 else firstn (length objs - 1) (tl (map Some objs))) = true).
+  { destruct fixn.
+    - rewrite <- (map_length Some objs), firstn_all. apply forallb_is_some.
+    - destruct objs as [|o objs]; simpl; auto.
+      rewrite Nat.sub_0_r, <- (map_length Some objs), firstn_all. apply forallb_is_some. }
+  cbv zeta. unfold oref in *. rewrite Hsc. simpl.
+  assert (Hfa : firstn (length objs) (map (@Some obj) objs) = map Some objs).
+  { rewrite <- (map_length (@Some obj) objs). apply firstn_all. }
+  unfold backend_add_values. simpl.
+  destruct (length objs <? 2)%nat eqn:E; [apply Nat.ltb_lt in E; lia|]. simpl.
+  unfold oref in *. rewrite Hfa, countb_all_some.
+  rewrite Nat.sub_diag. simpl.
+  unfold add_commit. unfold cflags_okb in Hc. rewrite Hc. simpl.
+  destruct (length objs =? 0)%nat eqn:E0; [apply Nat.eqb_eq in E0; lia|].
+  unfold set_dists. simpl. f_equal. f_equal. f_equal.
+  unfold committed.
+  destruct objs as [|o0 rest]; [simpl in Hn; lia|].
+  assert (Hut : unique_type_of (map Some (o0 :: rest)) = if all_same_type (o0 :: rest) then o_type o0 else TYPE_NONE).
+  { simpl. rewrite (forallb_map_some (fun o => (o_type o =? o_type o0)%N)). reflexivity. }
+  rewrite Hut. simpl hd. simpl type_of_ref.
+  inversion Hty as [|? ? H0 Hr]; subst.
+  destruct (all_same_type (o0 :: rest)) eqn:Es.
+  - destruct (N.eqb_spec (o_type o0) TYPE_NONE); [congruence|]. simpl.
+    f_equal. rewrite !map_map. auto.
+  - rewrite N.eqb_refl. simpl. f_equal; rewrite !map_map; auto.
+Qed.
+
+Lemma refresh_one_valid tobjs d : d_valid d = true -> refresh_one tobjs d = Some d.
+Proof. intros H. unfold refresh_one. rewrite H. auto. Qed.
+
+Lemma refresh_list_app tobjs a b : refresh_list tobjs (a ++ b) = refresh_list tobjs a ++ refresh_list tobjs b.
+Proof. induction a as [|d a IH]; simpl; auto. destruct (refresh_one tobjs d); simpl; rewrite IH; auto. Qed.
+
+Lemma refresh_one_id tobjs d d' : refresh_one tobjs d = Some d' ->
+  d_id d' = d_id d /\ d_name d' = d_name d /\ d_kind d' = d_kind d /\ d_unique d' = d_unique d /\ d_valid d' = true.
+Proof.
+  unfold refresh_one. destruct (d_valid d) eqn:V; [intros H; inversion H; subst; auto|].
+  destruct (_ <? 2)%nat; [discriminate|].
+  destruct (negb _).
+  - destruct (restrict_all _ _ _ _ _ _) as [[[o' idx'] dt'] v']. intros H; inversion H; subst; simpl; auto.
+  - intros H; inversion H; subst; simpl; auto.
+Qed.
+
+Lemma refresh_list_ids tobjs (P : N -> Prop) ds :
+  Forall (fun d => P (d_id d)) ds -> Forall (fun d => P (d_id d)) (refresh_list tobjs ds).
+Proof.
+  induction 1 as [|d ds Hd Hds IH]; simpl; auto.
+  destruct (refresh_one tobjs d) as [d'|] eqn:E; auto.
+  constructor; auto. apply refresh_one_id in E as (-> & _). auto.
+Qed.
+
+Lemma find_app_none {A} (f : A -> bool) a b : find f a = None -> find f (a ++ b) = find f b.
+Proof. induction a as [|x a IH]; simpl; auto. destruct (f x); [discriminate|auto]. Qed.
+
+Lemma filter_app' {A} (f : A -> bool) a b : filter f (a ++ b) = filter f a ++ filter f b.
+Proof. induction a as [|x a IH]; simpl; auto. destruct (f x); simpl; rewrite IH; auto. Qed.
+
+(* dist_add_get *)
+Lemma add_then_get fixn t name kind commitflags (objs : list obj) values garbage :
+  kind_okb kind = true -> cflags_okb commitflags = true ->
+  (2 <= length objs)%nat -> length values = (length objs * length objs)%nat ->
+  Forall (fun o => o_type o <> TYPE_NONE) objs ->
+  Forall (fun d => d_id d <> t_next_id t) (t_dists t) ->
+  exists t',
+    add_full_gen fixn t name kind 0 (length objs) (map Some objs) values 0 commitflags = (t', Ok tt) /\
+    let pd := PDist (t_next_id t) (length objs) (map Some objs)
+                    (if all_same_type objs then kind else N.lor kind HWLOC_DISTANCES_KIND_HETEROGENEOUS_TYPES) values in
+    exists pre,
+      get_all t' 0 0 garbage =
+      (refresh t', Ok (S (length pre), firstn (length garbage) (pre ++ [Some pd]) ++ repeat None (length garbage - S (length pre))))
+      /\ get_name (refresh t') pd = name.
+Proof.
+  intros Hk Hc Hn Hv Hty Hid.
+  eexists. split; [apply add_full_valid; auto|].
+  set (d := committed t name kind objs values).
+  set (t' := Topo _ _ _ _).
+  assert (Hd : d_valid d = true) by reflexivity.
+  assert (Hpub : to_public d = PDist (t_next_id t) (length objs) (map Some objs)
+                    (if all_same_type objs then kind else N.lor kind HWLOC_DISTANCES_KIND_HETEROGENEOUS_TYPES) values).
+  { unfold to_public, d, committed. simpl. rewrite firstn_map_some. rewrite <- Hv, firstn_all.
+    destruct (all_same_type objs); reflexivity. }
+  assert (Hr : t_dists (refresh t') = refresh_list (t_objs t) (t_dists t) ++ [d]).
+  { unfold refresh, t'. cbn [t_dists set_dists t_objs]. rewrite refresh_list_app.
+    cbn [refresh_list]. rewrite refresh_one_valid; auto. }
+  assert (Hm : matches None TYPE_NONE 0 d = true).
+  { unfold matches. rewrite N.eqb_refl. simpl. auto. }
+  exists (map pub (filter (matches None TYPE_NONE 0) (refresh_list (t_objs t) (t_dists t)))).
+  split.
+  - unfold get_all. rewrite get_core_spec. rewrite Hr, filter_app'. cbn [filter]. rewrite Hm.
+    rewrite app_length, map_app, map_length. simpl. unfold pub at 2. rewrite Hpub.
+    rewrite Nat.add_1_r. auto.
+  - unfold get_name, from_public. rewrite Hr. rewrite find_app_none.
+    + simpl. rewrite N.eqb_refl. reflexivity.
+    + assert (H := refresh_list_ids (t_objs t) (fun i => i <> t_next_id t) _ Hid).
+      clear - H. induction H as [|x l Hx Hl IH]; simpl; auto.
+      destruct (N.eqb_spec (d_id x) (t_next_id t)); [congruence|auto].
+Qed.
+
+(* ------------------------------------------------------------------ *)
+(* rejected adds leave the list unchanged                              *)
+(* ------------------------------------------------------------------ *)
+Lemma add_full_err_unchanged fixn t name kind cflags nb objs values vflags commitflags t' e :
+  add_full_gen fixn t name kind cflags nb objs values vflags commitflags = (t', Err e) ->
+  t_dists t' = t_dists t /\ t_objs t' = t_objs t.
+Proof.
+  unfold add_full_gen, add_create, backend_add_create.
+  destruct (_ || _ || _); [intros H; inversion H; auto|].
+  destruct (negb (cflags =? 0)%N); [intros H; inversion H; auto|].
+  destruct (add_values_gen _ _ _ _ _ _); [|intros H; inversion H; auto].
+  unfold add_commit.
+  destruct (negb _); [intros H; inversion H; auto|].
+  destruct (d_nb a =? 0)%nat; [intros H; inversion H; auto|].
+  intros H; inversion H.
+Qed.
+
+(* every reason the documentation gives for rejecting *)
+Definition invalid_add (kind cflags : N) (nb : nat) (objs : list oref) (vflags commitflags : N) : Prop :=
+  kind_okb kind = false \/ cflags <> 0%N \/ vflags <> 0%N \/ (nb < 2)%nat \/
+  forallb is_some (firstn nb objs) = false \/ cflags_okb commitflags = false.
+
+(* the same, minus the class the current code lets through: NULL only in objs[0] *)
+Definition invalid_add_but_null_first (kind cflags : N) (nb : nat) (objs : list oref) (vflags commitflags : N) : Prop :=
+  kind_okb kind = false \/ cflags <> 0%N \/ vflags <> 0%N \/ (nb < 2)%nat \/
+  forallb is_some (firstn (nb - 1) (tl objs)) = false \/ cflags_okb commitflags = false.
+
+Lemma add_full_rejects_gen (fixn : bool) t name kind cflags nb (objs : list oref) values vflags commitflags :
+  kind_okb kind = false \/ cflags <> 0%N \/ vflags <> 0%N \/ (nb < 2)%nat \/
+  forallb is_some (if fixn then firstn nb objs else firstn (nb - 1) (tl objs)) = false \/ cflags_okb commitflags = false ->
+  exists t' e, add_full_gen fixn t name kind cflags nb objs values vflags commitflags = (t', Err e) /\
+               t_dists t' = t_dists t.
+Proof.
+  intros Hinv.
+  destruct (add_full_gen fixn t name kind cflags nb objs values vflags commitflags) as [t' [u|e]] eqn:E.
+  - exfalso. revert E. unfold add_full_gen, add_create, backend_add_create.
+    destruct Hinv as [H|[H|[H|[H|[H|H]]]]].
+    + unfold kind_okb in H. destruct (N.land kind _ =? 0)%N; simpl in *; [|discriminate].
+      destruct (1 <? weight (N.land kind HWLOC_DISTANCES_KIND_FROM_ALL))%nat; simpl in *; [discriminate|].
+      destruct (1 <? weight (N.land kind HWLOC_DISTANCES_KIND_VALUE_ALL))%nat; simpl in *; discriminate.
+    + destruct (_ || _ || _); [discriminate|]. destruct (N.eqb_spec cflags 0); [congruence|]. simpl. discriminate.
+    + destruct (_ || _ || _); [discriminate|]. destruct (negb (cflags =? 0)%N); [discriminate|].
+      unfold add_values_gen. destruct (negb (forallb _ _)); [discriminate|].
+      unfold backend_add_values. simpl. destruct (N.eqb_spec vflags 0); [congruence|]. simpl. discriminate.
+    + destruct (_ || _ || _); [discriminate|]. destruct (negb (cflags =? 0)%N); [discriminate|].
+      unfold add_values_gen. destruct (negb (forallb _ _)); [discriminate|].
+      unfold backend_add_values. simpl. destruct (nb <? 2)%nat eqn:E2; [|apply Nat.ltb_ge in E2; lia].
+      rewrite orb_true_r. discriminate.
+    + destruct (_ || _ || _); [discriminate|]. destruct (negb (cflags =? 0)%N); [discriminate|].
+      unfold add_values_gen. cbv zeta. unfold oref in *. rewrite H. simpl. discriminate.
+    + destruct (_ || _ || _); [discriminate|]. destruct (negb (cflags =? 0)%N); [discriminate|].
+      destruct (add_values_gen _ _ _ _ _ _); [|discriminate].
+      unfold add_commit. unfold cflags_okb in H. rewrite H. simpl. discriminate.
+  - exists t', e. split; auto. apply add_full_err_unchanged in E. tauto.
+Qed.
